@@ -173,6 +173,13 @@ static void vf_wd_tick(int sig)
 		if (++vf_wd_stalls >= 2) { static const char m[] = "VF-WATCHDOG: no progress, the call in flight does not return\n"; if (write(2, m, sizeof m - 1)) {} _exit(124); }
 	} else { vf_wd_last = vf_progress; vf_wd_stalls = 0; }
 }
+/* stale errno: VF_AMBIENT_ERRNO=<n> makes the driver set errno = n before every command */
+static int vf_ambient_errno_v = -1;
+static inline void vf_ambient_errno(void)
+{
+	if (vf_ambient_errno_v == -1) { const char *e = getenv("VF_AMBIENT_ERRNO"); vf_ambient_errno_v = e ? atoi(e) : 0; }
+	if (vf_ambient_errno_v > 0) errno = vf_ambient_errno_v;
+}
 static void vf_watchdog_init(void)
 {
 	struct itimerval it; const char *e = getenv("VF_WATCHDOG_TICK"); int tick = e ? atoi(e) : 15;
